@@ -220,6 +220,29 @@ pub fn core_builder_reuse(p: Proto) -> Vec<Obs> {
             out.push(Obs { dim, what: format!("core layer, token #{} from one reused Paseto builder, presented with {}", i + 1, what), expect_ok: expect, got_ok: ok, got: o.short(), case: case.clone() });
         }
     }
+    // other call orders: footer / assertion before the payload; payload replaced on the configured builder
+    let msg2 = "{\"data\":\"second payload\"}";
+    let ord = adapter::core_issue_orders(p, &key.sk, &seed, msg, msg2, Some(f), a_opt);
+    for (i, (t, m)) in ord.iter().zip([msg, msg2]).enumerate() {
+        let case = json!({"kind": "core-call-order", "proto": p, "issue_no": i + 1});
+        let what = if i == 0 { "core layer, set_footer / set_implicit_assertion BEFORE set_payload" } else { "core layer, set_payload again on the configured builder" };
+        let Out::Ok(token) = t else {
+            out.push(Obs { dim: Dim::RoundTrip, what: what.into(), expect_ok: true, got_ok: false, got: t.short(), case });
+            continue;
+        };
+        let mut trials: Vec<(Dim, &str, Option<&str>, Option<&str>, bool)> = vec![(Dim::RoundTrip, "its own footer/assertion", Some(f), a_opt, true), (Dim::Footer, "no footer", None, a_opt, false)];
+        if p.has_assertion() {
+            trials.push((Dim::Assertion, "no assertion", Some(f), None, false));
+        }
+        for (dim, with, pf, pa, expect) in trials {
+            let o = adapter::core_present(p, &key.pk, token, pf, pa);
+            let ok = match &o {
+                Out::Ok(got) => !expect || got == m,
+                _ => false,
+            };
+            out.push(Obs { dim, what: format!("{}: token presented with {}", what, with), expect_ok: expect, got_ok: ok, got: o.short(), case: case.clone() });
+        }
+    }
     if p.is_local() && toks.len() == 2 && toks[0].ok().is_some() && toks[0].ok() != toks[1].ok() {
         out.push(Obs { dim: Dim::RoundTrip, what: "core layer: the second token from one reused Paseto builder (same key, nonce, message, footer, assertion) equals the first".into(), expect_ok: true, got_ok: false, got: "tokens differ".into(), case: json!({"kind": "core-builder-reuse", "proto": p, "issue_no": 2}) });
     }
